@@ -1,9 +1,9 @@
 #!/bin/bash
-# tools/try_refactors.sh <Cxx> [extra checks...] : run every /tmp/wt/<Cxx>-r/_refactor/r*.diff (behaviour-preserving
+# tools/try_refactors.sh <Cxx> [extra checks...] : run every /verif/twins/<Cxx>-r/r*.diff (behaviour-preserving
 # refactorings written by a sub-agent) against check Cxx (and extra checks) on scratch copies; any non-zero exit is a
 # false alarm to look at.
 id="$1"; shift
-for diff in /tmp/wt/$id-r/_refactor/r*.diff; do
+for diff in /verif/twins/$id-r/r*.diff; do
   d=$(mktemp -d /tmp/scr.XXXXXX)
   cp -r /repo/src "$d/src"
   if ! ( cd "$d" && patch -p1 -s < "$diff" ); then echo "$(basename $diff): patch does not apply"; rm -rf "$d"; continue; fi
